@@ -395,14 +395,20 @@ func TestWorker(t *testing.T) {
 			c.R.MaxDev = -1
 			for bound := lo; bound <= hi && !c.R.Capped; bound++ {
 				c.ResetStates()
-				for i, s := range chk.Scenarios(tier) {
+				list := chk.Scenarios
+				pre := false
+				if chk.ShardByScenario && chk.ScenariosSharded != nil {
+					list = func(tier string) []*h.Scenario { return chk.ScenariosSharded(tier, shard, shards) }
+					pre = true
+				}
+				for i, s := range list(tier) {
 					if only := os.Getenv("VERIF_SCENARIO"); only != "" && !strings.HasPrefix(s.Name, only) {
 						continue
 					}
 					attach(chk, s)
 					o := h.HOpts{Bound: bound, Shard: shard, Shards: shards, Prune: chk.Prune, Nontrivial: chk.Nontrivial, SampleMax: 2}
 					if chk.ShardByScenario {
-						if i%shards != shard {
+						if !pre && i%shards != shard {
 							continue
 						}
 						o.Shard, o.Shards = 0, 1
